@@ -461,3 +461,55 @@ func sortedKeys(m map[int64]bool) []int64 {
 	sort.Slice(out, func(i, j int) bool { return out[i] < out[j] })
 	return out
 }
+
+// setterAdmitsZero records: the store of the setter's argument into connection.<field> is reached for the value 0
+// (every comparison of the parameter with a constant on the way to the store is true for 0 on the branch taken).
+func setterAdmitsZero(r *Run, key, fnName, field string) {
+	fn := r.W.MustFn(fnName)
+	for _, ins := range allIns(fn) {
+		st, ok := ins.(*ssa.Store)
+		if !ok || !isStoreToField(ins, "connection", field) {
+			continue
+		}
+		if _, isParam := st.Val.(*ssa.Parameter); !isParam {
+			continue
+		}
+		admits := true
+		detail := "unconditional store"
+		for _, g := range guardChain(ins.Block()) {
+			b, ok := g.Cond.(*ssa.BinOp)
+			if !ok {
+				continue
+			}
+			if b.X != st.Val {
+				continue
+			}
+			k, okc := constInt(b.Y)
+			if !okc {
+				continue
+			}
+			var truth bool
+			switch b.Op {
+			case token.GEQ:
+				truth = 0 >= k
+			case token.GTR:
+				truth = 0 > k
+			case token.LEQ:
+				truth = 0 <= k
+			case token.LSS:
+				truth = 0 < k
+			case token.EQL:
+				truth = 0 == k
+			case token.NEQ:
+				truth = 0 != k
+			default:
+				continue
+			}
+			detail = fmt.Sprintf("guard %s %d on the %v branch", b.Op, k, g.Branch)
+			if truth != g.Branch {
+				admits = false
+			}
+		}
+		r.ob(key, "the timeout setter stores a zero duration too: 0 is how a timeout that was set is cleared again (a read or flush after SetXTimeout(0) waits without limit)", fn, ins, admits, detail, true)
+	}
+}
